@@ -164,6 +164,16 @@ def run(prog, check):
         arg = c.args[0] if c.args else None
         # reaching definitions of the argument at this node: only the parameter or its strip()
         ok = isinstance(arg, ast.Name) and arg.id == term_p
+        if not ok and arg is not None:
+            # a Term object built from the signed text (it carries sign and name; AddTerm copies it)
+            v_ = resolve_expr(arg, {k_: e_ for k_, e_ in sub.items() if k_ != term_p})
+            if isinstance(v_, ast.Call) and call_name(v_) == 'Term' and len(v_.args) >= 1 and not v_.keywords:
+                a0_ = v_.args[0]
+                if isinstance(a0_, ast.Call) and call_name(a0_) == 'strip' and not a0_.args:
+                    a0_ = a0_.func.value
+                if isinstance(a0_, ast.Name) and a0_.id == term_p:
+                    arg = a0_
+                    ok = True
         if ok:
             for a in g.stmt_nodes():
                 if a.kind == 'stmt' and isinstance(a.ast, ast.Assign) and term_p in target_names(a.ast.targets[0]) and g.can_reach(a, n):
@@ -204,6 +214,21 @@ def run(prog, check):
                 name = True
         return obj, name
     loop_ids = {id(l): l for l in excl_loops}
+    # an exclusion belongs to one sector object: the scan compares the recorded object with self by identity (or ID)
+    for l in excl_loops:
+        lv_ = target_names(l.target)
+        ident_, other_ = False, []
+        for t_ in [x for x in ast.walk(l) if isinstance(x, ast.Compare) and len(x.ops) == 1]:
+            pair_ = {unparse(t_.left), unparse(t_.comparators[0])}
+            if lv_ and pair_ in ({'%s.ID' % lv_[0], 'self.ID'}, {lv_[0], 'self'}):
+                ident_ = True
+            elif lv_ and any(x_.startswith(lv_[0] + '.') for x_ in pair_) and any(x_.startswith('self.') for x_ in pair_):
+                other_.append(unparse(t_))
+        check.ob('C06.R2', '%s::exclusion-belongs-to-this-sector' % cash.key, ident_, '%s:%d' % (cash.module.rel, l.lineno),
+                 'an exclusion is applied only to the sector object it was registered for' if ident_ else
+                 'an exclusion is matched by `%s`, not by the identity of the sector it was registered for: it also removes the flow from the '
+                 'income of another sector with the same attribute' % (other_[0] if other_ else 'no test on the recorded sector'),
+                 'two countries with a household of the same code, the exclusion registered for one of them')
 
     def step(extra, node, lab, env, nxt):
         M, mo, mn, E, f_, inc = extra
@@ -452,6 +477,14 @@ def run(prog, check):
                  "a flow 'W/P': F and INC must hold W/P, not P/W")
     # ---- W -----------------------------------------------------------------------------------------
     who_may_write(prog, check, 'C06.W', cash_raw)
+    # ---- W (cont.): F and INC each keep their own copy of a booked term -------------------------------------------
+    from ._common import addterm_private_copy
+    at_, okp_ = addterm_private_copy(prog)
+    check.saw(at_)
+    check.ob('C06.W', '%s::entry-is-private-to-its-equation' % at_.key, okp_, at_.where,
+             'a booked term is copied into the equation: the entries of F and INC are independent' if okp_ else
+             'the object passed in can become the entry itself: when the same flow is booked again F merges it into the shared object and INC changes with it',
+             'the same flow name booked twice on one sector')
     # ---- R2 (cont.): a flow registered on the model books each leg with that leg's own income flag ----------------
     from ._common import registration_always_recorded
     from .. import effects as _eff
